@@ -29,6 +29,9 @@ ENDINGS = [
     'syntax_instr', 'syntax_unknown_instr', 'unknown_phase', 'act_syntax',
     'undefined_symbol', 'missing_home_file',
     'hard_setup', 'hard_before_assert', 'hard_assert', 'hard_cleanup', 'hard_act',
+    # a failing assertion FOLLOWED by an error in [cleanup] (`help case spec`, outcome: an error that occurs during the
+    # execution "will ... be reported as an error, and not as a failed test")
+    'fail_then_hard_cleanup',
     # the OS refuses to start a program for another reason than "not found" / "permission denied" (an executable text
     # file without #! line: ENOEXEC), in each phase
     'hard_exec_setup', 'hard_exec_act', 'hard_exec_before_assert', 'hard_exec_assert', 'hard_exec_cleanup',
@@ -54,7 +57,8 @@ def cases(tier, seed):
         # deterministic: rotate through the core list so that every core rc meets every mode & several scenarios
         idx = (ENDINGS.index(ending) * 12 + STATUSES.index(status) * 3 + MODES.index(mode))
         rcs.append(CORE_RCS[idx % len(CORE_RCS)])
-        if ending in ('pass', 'fail_first', 'fail_last', 'fail_only', 'hard_cleanup', 'hard_before_assert',
+        if ending in ('pass', 'fail_first', 'fail_last', 'fail_only', 'hard_cleanup', 'fail_then_hard_cleanup',
+                      'hard_before_assert',
                       'hard_assert'):
             rcs.extend(CORE_RCS if (tier == 'thorough' or mode == 'act') else CORE_RCS[::3])
         for _ in range(n_extra):
@@ -129,6 +133,9 @@ def build(case, probe_path):
         as_ = [good, 'contents this-file-does-not-exist.txt : is-empty']
     elif e == 'hard_cleanup':
         as_ = [good]
+        cl = ['$ exit 1']
+    elif e == 'fail_then_hard_cleanup':
+        as_ = [good] * (k - 1) + [bad]
         cl = ['$ exit 1']
     elif e.startswith('hard_exec_'):
         files['not-a-program'] = ('exe', 'echo this file has no interpreter line\n')
@@ -205,7 +212,7 @@ def build(case, probe_path):
     return files, argv, name
 
 
-_ALIAS = {'hard_exec_setup': 'hard_setup', 'hard_exec_act': 'hard_act', 'hard_exec_before_assert': 'hard_before_assert',
+_ALIAS = {'fail_then_hard_cleanup': 'hard_cleanup', 'hard_exec_setup': 'hard_setup', 'hard_exec_act': 'hard_act', 'hard_exec_before_assert': 'hard_before_assert',
           'hard_exec_assert': 'hard_assert', 'hard_exec_cleanup': 'hard_cleanup'}
 
 
